@@ -343,6 +343,13 @@ def _call_ext(it, name, args, kwargs, node):
         from .values import VPartial
 
         return VPartial(args[0], args[1:], kwargs)
+    if n in ("weakref.WeakKeyDictionary", "weakref.WeakValueDictionary") and not args:
+        return it.new_dict({})  # the analysed paths keep their objects alive: an ordinary dictionary keyed by identity
+    if n == "weakref.ref" and len(args) >= 1:
+        inst = Instance(None)
+        inst.ext = "weakref.ref"
+        inst.attrs["referent"] = args[0]  # the analysed paths keep their objects alive: calling the reference returns the object
+        return VObj(inst)
     if n == "collections.namedtuple" and len(args) >= 2:
         ok_, tn = const_of(args[0])
         fl = it.concrete_items(args[1])
@@ -676,6 +683,13 @@ def _call_torch(it, f, args, kwargs, node):
     from .ops import tensor_binop, shape_val, val_of_dim, dim_of
 
     dtype_bool = False
+    if f == "eye" and args and num_term(args[0]) is not None and (len(args) == 1 or num_term(args[1]) is not None):
+        n_, m_ = dim_of(args[0]), dim_of(args[1] if len(args) > 1 else args[0])
+        r = it.fresh(T.app("eye", num_term(args[0])) if len(args) == 1 else T.app("eye", num_term(args[0]), num_term(args[1])), (n_, m_), "tensor", node)
+        dt_ = kwargs.get("dtype")
+        if isinstance(dt_, VExt) and dt_.name.endswith("bool"):
+            r.obj.valkind = "bool"
+        return r
     if f in ("zeros", "ones", "empty", "randn", "rand", "full"):
         a = list(args)
         fill = None
@@ -1170,6 +1184,13 @@ def call_builtin(it, f, args, kwargs, node):
         if isinstance(x, VObj) and x.inst.cls is not None and x.inst.cls.find_method("__len__"):
             return it.call_method(x, "__len__", [], {}, node)
         tag = getattr(x, "tag", type(x).__name__)
+        if isinstance(x, VList):
+            # one unknown per list object (two lists of unknown contents have unrelated lengths); the number is the list's rank
+            # among the unknown lists whose length was asked for on this path, so that it is the same on every run
+            reg = it.__dict__.setdefault("_len_ids", {})
+            if id(x.obj) not in reg:
+                reg[id(x.obj)] = (len(reg), x.obj)
+            tag = "VList" if reg[id(x.obj)][0] == 0 else "VList#%d" % reg[id(x.obj)][0]
         v = VNum("int", T.sym("len(%s)" % tag), nonneg=True)
         v.len_of = x
         return v
@@ -1301,19 +1322,29 @@ def call_builtin(it, f, args, kwargs, node):
         if len(args) > 1 or "start" in kwargs:
             ok, start = const_of(args[1] if len(args) > 1 else kwargs["start"])
         if items is not None:
-            return VIter([VTuple([VConst(i + start), x]) for i, x in enumerate(items)])
+            r_ = VIter([VTuple([VConst(i + start), x]) for i, x in enumerate(items)])
+            if getattr(args[0], "one_shot", False):
+                r_.one_shot, r_.wraps = True, args[0]
+            return r_
         u = VUnknown("enumerate", "iter")
         src = args[0]
+        if getattr(src, "one_shot", False):
+            u.one_shot, u.wraps = True, src  # enumerate over an iterator object consumes that object
         st_t = T.const(start) if isinstance(start, int) else T.sym("start?")
-        u.elem = lambda: VTuple([VNum("int", T.sym("enum_i@%s" % it.site(node)) + st_t, nonneg=isinstance(start, int) and start >= 0), it.loop_elem(src, False, node)])
+        # the position is the loop's own position symbol i@<site> (the same number an item of a list built over range(0, n) is
+        # numbered by)
+        u.elem = lambda: VTuple([VNum("int", T.sym("i@%s" % it.site(node)) + st_t, nonneg=isinstance(start, int) and start >= 0), it.loop_elem(src, False, node)])
         u.elem_first = lambda: VTuple([VConst(start) if isinstance(start, int) else VNum("int", st_t), it.loop_elem(src, True, node)])
         u.source = src
         return u
     if f == "zip":
         lists = [it.concrete_items(a) for a in args]
         if all(l is not None for l in lists):
-            return VIter([VTuple(list(xs)) for xs in zip(*lists)])
+            r_ = VIter([VTuple(list(xs)) for xs in zip(*lists)])
+            r_.one_shot = True
+            return r_
         u = VUnknown("zip", "iter")
+        u.one_shot = True
         srcs = list(args)
         u.sources = srcs
         u.elem = lambda: VTuple([it.loop_elem(s, False, node) for s in srcs])
@@ -1357,6 +1388,15 @@ def call_builtin(it, f, args, kwargs, node):
                     return args[2]
                 raise
         return VUnknown("getattr", "unknown", getattr(args[0], "origin", None))
+    if f == "id" and len(args) == 1:
+        # one number per object, the same every time it is asked for (numbered in the order of asking: stable between runs)
+        reg = it.__dict__.setdefault("_id_numbers", {})
+        x = args[0]
+        key = id(x.inst) if isinstance(x, VObj) else (id(x.obj) if isinstance(x, (VTens, VList, VDict)) and not getattr(x, "view", None) else None)
+        if key is not None:
+            if key not in reg:
+                reg[key] = (10 ** 6 + len(reg), x)
+            return VConst(reg[key][0])
     if f == "property":
         inst = Instance(None)
         inst.ext = "builtins.property"
@@ -1835,7 +1875,8 @@ def ext_method(it, objv, name, args, kwargs, node):
                     if share:
                         p.obj.may_alias.add(sv.obj)
                 else:
-                    p.obj.term = T.sym("loaded:%s" % n)
+                    # (which entry of which file: the source's own description, e.g. load['rbm_am'])
+                    p.obj.term = T.sym("loaded:%s:%s" % (getattr(src, "tag", "?"), n) if isinstance(src, VUnknown) and getattr(src, "tag", None) else "loaded:%s" % n)
             return VConst(None)
         if m == "zero_grad":
             for n, p in module_params(it, objv):
